@@ -7,7 +7,10 @@ import (
 	"math/big"
 	"net"
 	"net/netip"
+	"runtime"
 	"strings"
+	"sync"
+	"sync/atomic"
 	"time"
 
 	vx "go.minekube.com/gate/pkg/verifexport"
@@ -630,6 +633,86 @@ func scramble(z uint64) uint64 {
 	return z ^ (z >> 31) ^ 0xC34
 }
 
+// quotaConcurrent: first contact of one group from several goroutines at once.  With rate 0 every
+// linearisation of correct code (get-or-create under the Quota mutex, Allow under the limiter's) lets exactly
+// min(attempts, burst) events of the group through, so the outcome is schedule-independent on correct code;
+// a check-then-act lookup hands concurrent first events separate full buckets and shows up as max > burst.
+func quotaConcurrent() {
+	r := run.Rng
+	for batch := 0; batch < run.Scale(24, 200); batch++ {
+		burst := hx.Pick(r, []int{1, 1, 2, 3})
+		maxEntries := hx.Pick(r, []int{0, 1, 1000}) // 1: every round's group arrives right after an eviction
+		workers := hx.Pick(r, []int{2, 4, 8, 16})
+		per := hx.Pick(r, []int{1, 1, 2})
+		rounds := 150
+		v6 := r.Bool()
+		base4, base6 := randV4(r), randV6(r)
+		spell := make([]uint64, workers) // per-worker seeds for the address spelling
+		for i := range spell {
+			spell[i] = r.U64()
+		}
+		minA, maxA, witness, witnessA := 1<<30, -1, "-", 0
+		out := hx.Guard(60*time.Second, func() string {
+			q := vx.C34NewQuota(0, burst, maxEntries)
+			for round := 0; round < rounds; round++ {
+				// a fresh group per round
+				b4, b6 := base4, base6
+				b4[1], b4[2] = byte(round>>8), byte(round)
+				b6[6], b6[7] = byte(round>>8), byte(round)
+				var ready, allowed atomic.Int32
+				var wg sync.WaitGroup
+				for w := 0; w < workers; w++ {
+					wg.Add(1)
+					go func(w int) {
+						defer wg.Done()
+						wr := hx.NewRng(spell[w] + uint64(round))
+						texts := make([]string, per)
+						for k := range texts {
+							if v6 {
+								m := b6
+								copy(m[8:], wr.Bytes(8))
+								texts[k] = textV6(wr, m)
+							} else {
+								m := b4
+								m[3] = byte(wr.U64())
+								texts[k] = textV4(wr, m)
+							}
+						}
+						ready.Add(1)
+						for spins := 0; ready.Load() < int32(workers); spins++ {
+							if spins > 200 {
+								runtime.Gosched()
+							}
+						}
+						for _, t := range texts {
+							if !q.Blocked(t) {
+								allowed.Add(1)
+							}
+						}
+					}(w)
+				}
+				wg.Wait()
+				a := int(allowed.Load())
+				if a < minA {
+					minA = a
+				}
+				if a > maxA {
+					maxA = a
+					if a > burst {
+						if v6 {
+							witness, witnessA = hx.HexS(netip.AddrFrom16(b6).String()), a
+						} else {
+							witness, witnessA = hx.HexS(netip.AddrFrom4(b4).String()), a
+						}
+					}
+				}
+			}
+			return fmt.Sprintf("min=%d max=%d", minA, maxA)
+		})
+		run.Case("quota-concurrent", fmt.Sprintf("qconc 0 1 %d %d %d %d %d %s %d", burst, maxEntries, workers, per, rounds, witness, witnessA), out)
+	}
+}
+
 func main() {
 	run = hx.Start()
 	run.Rng = hx.NewRng(scramble(run.Seed))
@@ -639,5 +722,6 @@ func main() {
 	counterSection()
 	limiterSection()
 	quotaSection()
+	quotaConcurrent()
 	run.Finish()
 }
